@@ -187,6 +187,17 @@ structure SegOK (C : Compression) (P bs : Nat) (s : SourceSegment) (docs : List 
   /-- the decompressor id in the footer identifies the codec -/
   sameCodec : s.store.decompId = C.id → s.codec = C
 
+/-- stacking (the guard is false) is only chosen for a source without deletes, with enough blocks,
+whose decompressor is the writer's compressor — for the three clauses as extracted from the source -/
+theorem mustCopy_false (C : Compression) (minBlocks : Nat) (s : SourceSegment)
+    (h : mustCopy C minBlocks s = false) :
+    s.hasDeletes = false ∧ minBlocks ≤ ((checkpointsOf s.store.index).take (minBlocks + 1)).length ∧
+      s.store.decompId = C.id := by
+  have hne : Gen.STACK_CODEC_CLAUSE_IS_NE = 1 := by decide
+  simp only [mustCopy, codecClause, hne, if_true, Bool.or_eq_false_iff, decide_eq_false_iff_not,
+    Decidable.not_not, Nat.not_lt] at h
+  exact ⟨h.1.1, h.1.2, h.2⟩
+
 theorem mergeStep_spec (C : Compression) (K P minBlocks bs : Nat) (hK : 1 ≤ K) (hP : 2 ≤ P)
     (hbs : bs < 4294967296) (w : Writer) (done : List Bytes) (hw : WInv C K w done) (hwb : w.blockSize = bs)
     (s : SourceSegment) (docs : List Bytes) (hs : SegOK C P bs s docs) :
@@ -208,8 +219,7 @@ theorem mergeStep_spec (C : Compression) (K P minBlocks bs : Nat) (hK : 1 ≤ K)
   · -- stacking: no deletes, same codec
     rw [if_neg hm]
     have hm' : mustCopy C minBlocks s = false := by simpa using hm
-    simp only [mustCopy, Bool.or_eq_false_iff, decide_eq_false_iff_not, Decidable.not_not] at hm'
-    obtain ⟨⟨hdel, _⟩, hid⟩ := hm'
+    obtain ⟨hdel, _, hid⟩ := mustCopy_false C minBlocks s hm'
     have hcodec := hs.sameCodec hid
     have hall : liveDocs s.alive 0 docs = docs :=
       liveDocs_all _ _ 0 (fun i hi => by simpa using hs.noDeletes hdel i hi)
@@ -355,5 +365,143 @@ theorem mergeMapped_spec (C : Compression) (K : Nat) (hK : 1 ≤ K) (bs : Nat) :
           rw [← e]
           congr 1
           simp [List.map_set]
+
+/-! ### `has_deletes()` of a reader with a custom alive bitset -/
+
+theorem numAlive_le (alive : Nat → Bool) (n : Nat) : numAlive alive n ≤ n := by
+  unfold numAlive
+  have := List.length_filter_le alive (List.range n)
+  simpa using this
+
+/-- `has_deletes() = false` means every document below `max_doc` is alive in the intersected set -/
+theorem no_deletes_all_alive (alive : Nat → Bool) (n : Nat)
+    (h : decide (n - numAlive alive n > 0) = false) : ∀ i, i < n → alive i = true := by
+  have hle := numAlive_le alive n
+  have heq : numAlive alive n = n := by
+    have : ¬ (n - numAlive alive n > 0) := by simpa using h
+    omega
+  unfold numAlive at heq
+  have hall : ∀ a ∈ List.range n, alive a = true := by
+    have : ((List.range n).filter alive).length = (List.range n).length := by simpa using heq
+    exact List.length_filter_eq_length_iff.mp this
+  intro i hi
+  exact hall i (List.mem_range.mpr hi)
+
+/-- the segment the merger sees for a store holding `docs`, with the segment's own deletes and a
+caller-supplied filter, satisfies the assumptions of the merge theorem by construction -/
+theorem segOK_ofReader (C : Compression) (P bs : Nat) (store : StoreFile) (codec : Compression)
+    (own custom : Option (Nat → Bool)) (docs : List Bytes)
+    (hholds : Holds codec P store docs) (hrt : ∀ b, codec.decomp (codec.comp b) = some b)
+    (hne : docs ≠ []) (hdocs : ∀ d ∈ docs, d ≠ [] ∧ bs + d.length < 4294967296)
+    (hcodec : store.decompId = C.id → codec = C) :
+    SegOK C P bs (SourceSegment.ofReader store codec own custom docs.length) docs :=
+  { holds := hholds
+    codecRt := hrt
+    nonempty := hne
+    docsOk := hdocs
+    noDeletes := fun h => no_deletes_all_alive _ _ h
+    sameCodec := hcodec }
+
+/-! ### where a live document ends up: its rank among the live documents -/
+
+theorem filter_range_succ (p : Nat → Bool) (j : Nat) :
+    ((List.range (j + 1)).filter p).length
+      = (if p 0 then 1 else 0) + ((List.range j).filter fun i => p (i + 1)).length := by
+  rw [List.range_succ_eq_map, List.filter_cons]
+  have : ((List.map Nat.succ (List.range j)).filter p).length = ((List.range j).filter fun i => p (i + 1)).length := by
+    rw [List.filter_map, List.length_map]
+    rfl
+  split <;> simp [this] <;> omega
+
+/-- the live document `j` of a segment is the `rank`-th element of the segment's live documents,
+`rank` = number of live documents before it -/
+theorem liveDocs_rank (alive : Nat → Bool) : ∀ (docs : List Bytes) (start j : Nat), j < docs.length →
+    alive (start + j) = true →
+    (liveDocs alive start docs)[((List.range j).filter fun i => alive (start + i)).length]? = docs[j]? := by
+  intro docs
+  induction docs with
+  | nil => intro start j h; simp at h
+  | cons x xs ih =>
+    intro start j hj ha
+    cases j with
+    | zero =>
+      simp only [Nat.add_zero] at ha
+      simp [liveDocs, ha]
+    | succ j =>
+      have hrec := ih (start + 1) j (by simpa using hj) (by rwa [show start + 1 + j = start + (j + 1) by omega])
+      rw [filter_range_succ (fun i => alive (start + i)) j]
+      simp only [Nat.add_zero, liveDocs, List.getElem?_cons_succ]
+      have hfun : (fun i => alive (start + (i + 1))) = (fun i => alive (start + 1 + i)) := by
+        funext i; congr 1; omega
+      rw [hfun]
+      by_cases h0 : alive start = true
+      · simp only [h0, if_true, List.singleton_append]
+        rw [show 1 + ((List.range j).filter fun i => alive (start + 1 + i)).length
+          = ((List.range j).filter fun i => alive (start + 1 + i)).length + 1 by omega, List.getElem?_cons_succ]
+        exact hrec
+      · simp only [h0, Bool.false_eq_true, if_false, List.nil_append, Nat.zero_add]
+        exact hrec
+
+theorem flatten_getElem_at (ls : List (List Bytes)) : ∀ (k r : Nat) (l : List Bytes), ls[k]? = some l → r < l.length →
+    ls.flatten[(ls.take k).flatten.length + r]? = l[r]? := by
+  induction ls with
+  | nil => intro k r l h; simp at h
+  | cons x xs ih =>
+    intro k r l h hr
+    cases k with
+    | zero =>
+      simp only [List.getElem?_cons_zero, Option.some.injEq] at h
+      subst h
+      simp only [List.take_zero, List.flatten_nil, List.length_nil, Nat.zero_add, List.flatten_cons]
+      rw [List.getElem?_append_left hr]
+    | succ k =>
+      simp only [List.getElem?_cons_succ] at h
+      simp only [List.take_succ_cons, List.flatten_cons, List.length_append]
+      rw [List.getElem?_append_right (by omega)]
+      have := ih k r l h hr
+      rw [← this]
+      congr 1; omega
+
+/-! ### any mix of fetches and iterations through the cache -/
+
+theorem runOps_spec (Adm : Checkpoint → Prop) (hk : KeyDetOn Adm) (C : Compression) (sf : StoreFile)
+    (hseek : ∀ d cp, seek sf.index d = some cp → Adm cp) (hadm : ∀ cp ∈ checkpointsOf sf.index, Adm cp)
+    (ops : List ReaderOp) : ∀ (c : BlockCache), CacheInvOn Adm C sf c →
+    (runOps C sf c ops).1 = ops.map (ReaderOp.plain C sf) := by
+  induction ops with
+  | nil => intro c _; rfl
+  | cons op ops ih =>
+    intro c h
+    cases op with
+    | get d =>
+      obtain ⟨h1, h2⟩ := getBytesCached_specOn Adm hk C sf hseek c h d
+      simp only [runOps, List.map_cons, ReaderOp.plain]
+      rw [ih _ h2, h1]
+    | iter al =>
+      obtain ⟨h1, h2⟩ := iterRawCached_spec Adm hk C sf hadm (aliveOfList al) c h
+      simp only [runOps, List.map_cons, ReaderOp.plain]
+      rw [ih _ h2, h1]
+
+theorem holds_runOps (C : Compression) (hcne : ∀ b, b ≠ [] → C.comp b ≠ []) (P : Nat) (hP : 2 ≤ P)
+    (sf : StoreFile) (docs : List Bytes) (hne : docs ≠ []) (h : Holds C P sf docs) (cap : Nat)
+    (ops : List ReaderOp) :
+    (runOps C sf (BlockCache.new cap) ops).1 = ops.map (ReaderOp.plain C sf) := by
+  obtain ⟨groups, cps, hd, hl, hg, hidx⟩ := h
+  have hgne : groups ≠ [] := by intro h0; rw [h0] at hd; exact hne hd.symm
+  have hc := laid_chain C groups 0 0 cps sf.data hl
+  have hcne' : cps ≠ [] := by
+    intro h0
+    have := laid_cps_length C groups 0 0 cps sf.data hl
+    rw [h0] at this
+    exact hgne (List.length_eq_zero_iff.mp this.symm)
+  obtain ⟨_, huniq⟩ := laid_starts C hcne groups 0 0 cps sf.data hl
+  apply runOps_spec (fun cp => cp ∈ cps) (fun a b ha hb he => huniq a ha b hb he) C sf
+  · intro d cp hs
+    rw [hidx, seek_finished P hP cps hcne' hc] at hs
+    exact List.mem_of_find?_eq_some hs
+  · intro cp hcp
+    rw [hidx, checkpointsOf_finished P hP cps hcne' hc] at hcp
+    exact hcp
+  · exact cacheInvOn_new _ C sf cap
 
 end TantivyModel.Store
